@@ -14,7 +14,7 @@ ID = "C05"
 LEVEL = "exploration"
 TECHNIQUE = "deviation-bounded exhaustive enumeration of valid parameter dictionaries; every composed data-out list is decoded by independent decoders that also recompute every embedded length, and the CDB's parameter list length is read back with the spec CDB decoder"
 RULE = ("MODE SELECT 6/10 x 4 pages x every field over its alphabet (k deviations from all-zero/all-ones, k=1 quick, 2 thorough) x pf/sp x header "
-        "values x 1-2 pages per list; PERSISTENT RESERVE OUT x service actions 0-8 x 64-bit key alphabets x flag products x 0-3 TransportIDs of 6 "
+        "values x 1-2 pages per list, plus lists of 3-200 pages (MODE SELECT(10): across 255 bytes up to ~6 KB; MODE SELECT(6): up to 7 pages); PERSISTENT RESERVE OUT x service actions 0-8 x 64-bit key alphabets x flag products x 0-3 TransportIDs of 6 "
         "kinds x iSCSI name lengths 1..26 x format 00b/01b, REGISTER AND MOVE with/without TransportID; EXTENDED COPY LID1 and LID4 x header "
         "fields x 0-3 identification CSCD descriptors (NAA 5/6, EUI-64 8/12/16, T10 vendor id; block/tape/processor device types) x 0-3 segment "
         "descriptors of each implemented type {00,01,02,0B,0C,0D} x inline data {0,1,5 bytes}; one caller dictionary re-used for two commands of every ordered pair of segment kinds; every list is built a second time from the same values presented differently (reversed key order in every dictionary, int-subclass integers, bytes<->bytearray) and must come out identical; and once with every list given as a one-shot iterator (refusal accepted, a silently different list is not). Non-trivial = any non-default value or "
@@ -391,6 +391,14 @@ def gen(part, tier):
         for a, b in itertools.permutations(keys, 2):
             fa, fb = R.MODE_PAGES[a][0], R.MODE_PAGES[b][0]
             yield ["mode", ten, [[a[0], a[1], {fa[-1][0]: 1}], [b[0], b[1], {fb[0][0]: 1}]], h0, 1, 1]
+        # long lists: page counts up to where the list no longer fits one length byte (the (6) form ends at 255 bytes, the (10)
+        # form carries two-byte lengths: up to 2100 pages ~ 64 KiB)
+        counts = (3, 5, 6, 7, 8, 9, 12, 13, 14, 16, 24, 40, 200) if ten else (3, 5, 6, 7)
+        for n in counts:
+            pages = [[keys[i % len(keys)][0], keys[i % len(keys)][1], {R.MODE_PAGES[keys[i % len(keys)]][0][0][0]: 1}] for i in range(n)]
+            yield ["mode", ten, pages, h0, 1, 0]
+            big = max(keys, key=lambda kk: R.MODE_PAGES[kk][1])
+            yield ["mode", ten, [[big[0], big[1], {R.MODE_PAGES[big][0][0][0]: 1}] for _ in range(n)], h0, 1, 0]
     elif part[0] == "prout_keys":
         for sa in range(9):
             for vals in c04.field_points(P.PR_BASIC[:2], max(k, 2)):
